@@ -117,6 +117,17 @@ Section Batch.
     | it :: its', r :: rs' => if r_ok r then it :: succeeded its' rs' else succeeded its' rs'
     | _, _ => []
     end.
+  (* the items (resp. results) selected by a predicate on (item, its result) *)
+  Fixpoint kept (keep : item -> result -> bool) (its : list item) (rs : list result) : list item :=
+    match its, rs with
+    | it :: its', r :: rs' => if keep it r then it :: kept keep its' rs' else kept keep its' rs'
+    | _, _ => []
+    end.
+  Fixpoint kept_results (keep : item -> result -> bool) (its : list item) (rs : list result) : list result :=
+    match its, rs with
+    | it :: its', r :: rs' => if keep it r then r :: kept_results keep its' rs' else kept_results keep its' rs'
+    | _, _ => []
+    end.
 End Batch.
 
 Arguments it_op {I}. Arguments it_bid {I}. Arguments it_body {I}.
